@@ -38,6 +38,15 @@ func (k Keeper) GetModuleAccountAndPermissions(ctx sdk.Ctx, moduleName string) (
 	if acc != nil {
 		macc, ok := acc.(exported.ModuleAccountI)
 		if !ok {
+			// a transfer to the module's address before the module account was first used created a
+			// plain account there: it becomes the module account and keeps its coins
+			if _, isBase := acc.(*types.BaseAccount); isBase {
+				newMacc := types.NewEmptyModuleAccount(moduleName, perms...)
+				if err := newMacc.SetCoins(acc.GetCoins()); err == nil {
+					k.SetModuleAccount(ctx, newMacc)
+					return newMacc, perms
+				}
+			}
 			fmt.Println("account that is retrieved is not a module account")
 			return types.ModuleAccount{}, []string{}
 		}
